@@ -109,6 +109,11 @@ def body(chk):
     for j, how in enumerate(("pickle", "deepcopy", "tree.copy")):
         cases.append(dict(level=("1.5", "1.1")[j % 2], images=[("HH", None, 12, 3), ("HV", None, 7, 2)], rpc=(4, 3, 2)[j], seed=chk.seed + 870 + j, fss=["vtrace"],
                           origin=f"via-{how}", special=False, via_copy=how, sels=[("slice", 2, 7, 1), ("all",), ("list", [0, 6]), ("int", 5)]))
+    # a block-by-block walk over one opened variable (each load starts where the previous one stopped, on group boundaries and off them):
+    # every load is judged on its own -- nothing is fetched for the NEXT load
+    for j, (n, rpc, step) in enumerate(((22, 4, 4), (22, 4, 2), (17, 3, 6), (22, 1024, 5))):
+        cases.append(dict(level=("1.5", "1.1")[j % 2], images=[("HH", None, n, 3)], rpc=rpc, seed=chk.seed + 880 + j, fss=["vtrace"], origin="block-walk", special=False,
+                          sels=[("slice", a, min(n, a + step), 1) for a in range(0, n, step)] + [("slice", 0, step, 1)]))
     # transient faults (a read that fails once with an I/O error, with or without having moved the position): the load may raise or
     # must be right, and groups already delivered are not requested again
     for j, (nth, consume) in enumerate([(1, 0.0), (1, 0.5), (2, 0.5), (3, 0.0), (3, 0.5), (4, 1.0)]):
